@@ -1,10 +1,11 @@
 //! Executable form of the assumed dependency contract T1 (orx-concurrent-iter protocol) with an
-//! explicit chunk -> worker assignment, plus the call logs used by the harnesses.
+//! explicit chunk -> worker assignment, plus the call and pull logs used by the harnesses.
 //! Single-threaded (Kani has no threads): "workers" are run one after another by the Runner
 //! contract stubs (stubs.rs), which set `CUR` before each worker. See DESIGN.md 1 (R-sched).
 use orx_concurrent_iter::iter::buffered::buffered_chunk::{BufferedChunk, BufferedChunkX};
 use orx_concurrent_iter::{ConcurrentIter, ConcurrentIterX, Next, NextChunk};
 use std::cell::Cell;
+use std::marker::PhantomData;
 
 pub const MAXN: usize = 4;
 pub const MAXT: usize = 3;
@@ -16,20 +17,34 @@ pub struct E {
     pub v: u8,
 }
 
-pub static mut CUR: usize = 0;
+/// worker currently being run by a Runner contract stub
+// (unique initial bit pattern: see the note on `static mut` in stubs.rs; Log::new() sets it to 0)
+pub static mut CUR: usize = 0xA5A5_0000;
 
-// ---- call log: how often closure `stage` was called on the element that came from source position p.
-// (Kept in a struct reached through a shared reference captured by the closures: writes to
-// `static mut` arrays from inside closures made CBMC 6.11 report spurious __rust_dealloc failures.)
+// ---- logs. Kept in a struct reached through a shared reference captured by closures and iterator:
+// writes to `static mut` arrays from inside closures made CBMC 6.11 report spurious
+// __rust_dealloc failures.
 pub const NSTAGES: usize = 4;
-/// flat sequence of (stage, position) calls, for order-sensitive properties
 pub const MAXSEQ: usize = 24;
 
 pub struct Log {
+    // call log: how often closure `stage` was called on the element that came from source position p
     calls: [[Cell<u8>; MAXN]; NSTAGES],
     worker: [[Cell<u8>; MAXN]; NSTAGES],
     seq: [Cell<(u8, u8)>; MAXSEQ],
     seq_len: Cell<usize>,
+    // pull log of the model iterator
+    pub next_block: [Cell<usize>; MAXT],
+    pub delivered: Cell<usize>,
+    pub pulls: Cell<usize>,
+    pub bad_pull_size: Cell<bool>,
+    pub got_none: [Cell<bool>; MAXT],
+    pub pull_after_none: Cell<bool>,
+    pub skipped: Cell<bool>,
+    pub skipped_by: [Cell<bool>; MAXT],
+    pub pull_after_own_skip: Cell<bool>,
+    pub into_seq: Cell<bool>,
+    pub seq_next_calls: Cell<usize>,
 }
 
 unsafe impl Sync for Log {}
@@ -43,6 +58,17 @@ impl Log {
             worker: Default::default(),
             seq: Default::default(),
             seq_len: Cell::new(0),
+            next_block: Default::default(),
+            delivered: Cell::new(0),
+            pulls: Cell::new(0),
+            bad_pull_size: Cell::new(false),
+            got_none: Default::default(),
+            pull_after_none: Cell::new(false),
+            skipped: Cell::new(false),
+            skipped_by: Default::default(),
+            pull_after_own_skip: Cell::new(false),
+            into_seq: Cell::new(false),
+            seq_next_calls: Cell::new(0),
         }
     }
 
@@ -68,13 +94,25 @@ impl Log {
     }
 
     pub fn total(&self, stage: usize) -> usize {
-        let mut n = 0;
-        let mut p = 0;
-        while p < MAXN {
-            n += self.calls[stage][p].get() as usize;
-            p += 1;
-        }
-        n
+        // MAXN == 4, written out so that harness unwind bounds do not depend on MAXN
+        self.calls[stage][0].get() as usize
+            + self.calls[stage][1].get() as usize
+            + self.calls[stage][2].get() as usize
+            + self.calls[stage][3].get() as usize
+    }
+
+    pub fn max_calls(&self, stage: usize) -> u8 {
+        let a = self.calls[stage][0].get();
+        let b = self.calls[stage][1].get();
+        let c = self.calls[stage][2].get();
+        let d = self.calls[stage][3].get();
+        let m1 = if a > b { a } else { b };
+        let m2 = if c > d { c } else { d };
+        if m1 > m2 { m1 } else { m2 }
+    }
+
+    pub fn any_call(&self) -> bool {
+        self.seq_len.get() > 0
     }
 
     pub fn seq_len(&self) -> usize {
@@ -84,9 +122,15 @@ impl Log {
     pub fn seq_at(&self, i: usize) -> (u8, u8) {
         self.seq[i].get()
     }
+
+    /// no pull, no skip, no conversion happened on the source
+    pub fn source_untouched(&self) -> bool {
+        self.pulls.get() == 0 && !self.skipped.get() && !self.into_seq.get() && self.seq_next_calls.get() == 0
+    }
 }
 
-pub struct ModelIter {
+pub struct ModelIter<'a> {
+    pub log: &'a Log,
     pub data: [u8; MAXN],
     pub len: usize,
     pub known_len: bool,
@@ -96,42 +140,14 @@ pub struct ModelIter {
     pub owner: [u8; MAXN],
     /// early-exit frontier: blocks with index > cut are never delivered
     pub cut: usize,
-    pub next_block: [Cell<usize>; MAXT],
-    pub delivered: Cell<usize>,
-    // ---- pull log
-    pub pulls: Cell<usize>,
-    pub bad_pull_size: Cell<bool>,
-    pub got_none: [Cell<bool>; MAXT],
-    pub pull_after_none: Cell<bool>,
-    pub skipped: Cell<bool>,
-    pub skipped_by: [Cell<bool>; MAXT],
-    pub pull_after_own_skip: Cell<bool>,
-    pub into_seq: Cell<bool>,
 }
 
-unsafe impl Sync for ModelIter {}
-unsafe impl Send for ModelIter {}
+unsafe impl Sync for ModelIter<'_> {}
+unsafe impl Send for ModelIter<'_> {}
 
-impl ModelIter {
-    pub fn new(data: [u8; MAXN], len: usize, c: usize, owner: [u8; MAXN]) -> Self {
-        ModelIter {
-            data,
-            len,
-            known_len: true,
-            c,
-            owner,
-            cut: MAXN,
-            next_block: [Cell::new(0), Cell::new(0), Cell::new(0)],
-            delivered: Cell::new(0),
-            pulls: Cell::new(0),
-            bad_pull_size: Cell::new(false),
-            got_none: [Cell::new(false), Cell::new(false), Cell::new(false)],
-            pull_after_none: Cell::new(false),
-            skipped: Cell::new(false),
-            skipped_by: [Cell::new(false), Cell::new(false), Cell::new(false)],
-            pull_after_own_skip: Cell::new(false),
-            into_seq: Cell::new(false),
-        }
+impl<'a> ModelIter<'a> {
+    pub fn new(log: &'a Log, data: [u8; MAXN], len: usize, c: usize, owner: [u8; MAXN]) -> Self {
+        ModelIter { log, data, len, known_len: true, c, owner, cut: MAXN }
     }
 
     pub fn nblocks(&self) -> usize {
@@ -140,32 +156,33 @@ impl ModelIter {
 
     fn take_block(&self, req: usize) -> Option<usize> {
         let t = unsafe { CUR };
+        let log = self.log;
         if req != self.c {
-            self.bad_pull_size.set(true);
+            log.bad_pull_size.set(true);
         }
-        if self.got_none[t].get() {
-            self.pull_after_none.set(true);
+        if log.got_none[t].get() {
+            log.pull_after_none.set(true);
         }
-        if self.skipped_by[t].get() {
-            self.pull_after_own_skip.set(true);
+        if log.skipped_by[t].get() {
+            log.pull_after_own_skip.set(true);
         }
-        self.pulls.set(self.pulls.get() + 1);
+        log.pulls.set(log.pulls.get() + 1);
         let nb = self.nblocks();
-        let mut k = self.next_block[t].get();
+        let mut k = log.next_block[t].get();
         while k < nb {
             if k > self.cut {
                 break;
             }
             if self.owner[k] as usize == t {
-                self.next_block[t].set(k + 1);
+                log.next_block[t].set(k + 1);
                 let (b, e) = self.block_range(k);
-                self.delivered.set(self.delivered.get() + (e - b));
+                log.delivered.set(log.delivered.get() + (e - b));
                 return Some(k);
             }
             k += 1;
         }
-        self.next_block[t].set(nb);
-        self.got_none[t].set(true);
+        log.next_block[t].set(nb);
+        log.got_none[t].set(true);
         None
     }
 
@@ -176,39 +193,45 @@ impl ModelIter {
     }
 }
 
-pub struct ModelBuf {
+pub struct ModelBuf<'a> {
     c: usize,
+    _p: PhantomData<&'a ()>,
 }
 
-impl BufferedChunkX<E> for ModelBuf {
-    type ConIter = ModelIter;
+impl<'a> BufferedChunkX<E> for ModelBuf<'a> {
+    type ConIter = ModelIter<'a>;
     fn new(chunk_size: usize) -> Self {
-        Self { c: chunk_size }
+        Self { c: chunk_size, _p: PhantomData }
     }
     fn chunk_size(&self) -> usize {
         self.c
     }
-    fn pull_x(&mut self, iter: &ModelIter) -> Option<impl ExactSizeIterator<Item = E>> {
+    fn pull_x(&mut self, iter: &ModelIter<'a>) -> Option<impl ExactSizeIterator<Item = E>> {
         iter.next_chunk_x(self.c)
     }
 }
 
-impl BufferedChunk<E> for ModelBuf {
-    fn pull(&mut self, iter: &ModelIter) -> Option<NextChunk<E, impl ExactSizeIterator<Item = E>>> {
+impl<'a> BufferedChunk<E> for ModelBuf<'a> {
+    fn pull(&mut self, iter: &ModelIter<'a>) -> Option<NextChunk<E, impl ExactSizeIterator<Item = E>>> {
         iter.next_chunk(self.c)
     }
 }
 
 /// a run of consecutive source elements
-pub struct Blk {
+pub struct Blk<'a> {
     data: [u8; MAXN],
     i: usize,
     e: usize,
+    /// set for the sequential iterator: counts next() calls (source consumption in sequential mode)
+    log: Option<&'a Log>,
 }
 
-impl Iterator for Blk {
+impl Iterator for Blk<'_> {
     type Item = E;
     fn next(&mut self) -> Option<E> {
+        if let Some(l) = self.log {
+            l.seq_next_calls.set(l.seq_next_calls.get() + 1);
+        }
         if self.i < self.e {
             let x = E { p: self.i as u8, v: self.data[self.i] };
             self.i += 1;
@@ -222,26 +245,26 @@ impl Iterator for Blk {
     }
 }
 
-impl ExactSizeIterator for Blk {
+impl ExactSizeIterator for Blk<'_> {
     fn len(&self) -> usize {
         self.e - self.i
     }
 }
 
-impl ConcurrentIterX for ModelIter {
+impl<'a> ConcurrentIterX for ModelIter<'a> {
     type Item = E;
-    type SeqIter = Blk;
-    type BufferedIterX = ModelBuf;
+    type SeqIter = Blk<'a>;
+    type BufferedIterX = ModelBuf<'a>;
 
-    fn into_seq_iter(self) -> Blk {
-        self.into_seq.set(true);
-        Blk { data: self.data, i: self.delivered.get(), e: self.len }
+    fn into_seq_iter(self) -> Blk<'a> {
+        self.log.into_seq.set(true);
+        Blk { data: self.data, i: self.log.delivered.get(), e: self.len, log: Some(self.log) }
     }
 
     fn next_chunk_x(&self, chunk_size: usize) -> Option<impl ExactSizeIterator<Item = E>> {
         self.take_block(chunk_size).map(|k| {
             let (b, e) = self.block_range(k);
-            Blk { data: self.data, i: b, e }
+            Blk { data: self.data, i: b, e, log: None }
         })
     }
 
@@ -250,13 +273,13 @@ impl ConcurrentIterX for ModelIter {
     }
 
     fn skip_to_end(&self) {
-        self.skipped.set(true);
-        self.skipped_by[unsafe { CUR }].set(true);
+        self.log.skipped.set(true);
+        self.log.skipped_by[unsafe { CUR }].set(true);
     }
 
     fn try_get_len(&self) -> Option<usize> {
         if self.known_len {
-            Some(self.len - self.delivered.get())
+            Some(self.len - self.log.delivered.get())
         } else {
             None
         }
@@ -271,8 +294,8 @@ impl ConcurrentIterX for ModelIter {
     }
 }
 
-impl ConcurrentIter for ModelIter {
-    type BufferedIter = ModelBuf;
+impl<'a> ConcurrentIter for ModelIter<'a> {
+    type BufferedIter = ModelBuf<'a>;
 
     fn next_id_and_value(&self) -> Option<Next<E>> {
         self.take_block(1).map(|k| Next { idx: k, value: E { p: k as u8, v: self.data[k] } })
@@ -281,7 +304,7 @@ impl ConcurrentIter for ModelIter {
     fn next_chunk(&self, chunk_size: usize) -> Option<NextChunk<E, impl ExactSizeIterator<Item = E>>> {
         self.take_block(chunk_size).map(|k| {
             let (b, e) = self.block_range(k);
-            NextChunk { begin_idx: b, values: Blk { data: self.data, i: b, e } }
+            NextChunk { begin_idx: b, values: Blk { data: self.data, i: b, e, log: None } }
         })
     }
 }
